@@ -92,7 +92,7 @@ func jieNear(t ref.DT) (inSlot bool, beforeInSlot bool) {
 
 var reverse = ev.Register(&ev.P[bzCase]{
 	Name: "reverse_lookup_roundtrip",
-	Rule: "moments from Xiaohan of the base year to the end of the current year (every Jie 1900..current year x offsets in minutes {-125,-61,-59,-31,-1,0,+1,+31,+61,+119} swept; Lichun day, both sides of midnight, uniform moments generated), sect in {1,2}, base year in {1900 default, 1600, 1984, 2000, and 1582, 1500, 1000 — whose Jie terms lie on the Julian side of the calendar switch}; oracle: forward pillars of the moment -> ListSolarFromBaZiBySectAndBaseYear must contain a moment in the same two-hour slot (completeness), every returned moment converted forward has exactly the requested pillars under the requested sect and year >= base (soundness), the list is strictly increasing by R-civil instant, and the default-argument wrappers equal their explicit forms; non-trivial: the slot contains a Jie instant, is the rat slot, or the day is a Jie day",
+	Rule: "moments from Xiaohan of the base year to the end of the current year (every Jie 1900..current year x offsets in minutes {-125,-61,-59,-31,-1,0,+1,+31,+61,+119} swept; Lichun day, both sides of midnight, uniform moments generated), sect in {1,2}, base year in {1900 default, 1600, 1984, 2000, and 1582, 1500, 1000 — whose Jie terms lie on the Julian side of the calendar switch} or any year 900..current; moments also in the first weeks after the base year's first Jie, and (for soundness and the lower bound only) in the weeks before the base year; oracle: forward pillars of the moment -> ListSolarFromBaZiBySectAndBaseYear must contain a moment in the same two-hour slot (completeness), every returned moment converted forward has exactly the requested pillars under the requested sect and year >= base (soundness), the list is strictly increasing by R-civil instant, and the default-argument wrappers equal their explicit forms; non-trivial: the slot contains a Jie instant, is the rat slot, or the day is a Jie day",
 	Check: func(c bzCase) error {
 		t := c.T
 		p := pillars(t, c.Sect)
@@ -122,6 +122,11 @@ var reverse = ev.Register(&ev.P[bzCase]{
 			if sameSlot(t, g, c.Sect) {
 				found = true
 			}
+		}
+		if !found && t.Sec() < firstJie(c.Base).Sec() {
+			// the moment lies before the first Jie of the base year: nothing is promised about finding it — the case
+			// only exercises "whatever is returned is sound, not earlier than the base year, and ordered"
+			return nil
 		}
 		if !found {
 			if clockMoved() {
@@ -157,6 +162,14 @@ var reverse = ev.Register(&ev.P[bzCase]{
 	Class: func(c bzCase) ([]string, bool) {
 		t := c.T
 		ls := []string{fmt.Sprintf("sect:%d", c.Sect), fmt.Sprintf("base:%d", c.Base)}
+		if c.T.Sec() < firstJie(c.Base).Sec() {
+			ls = append(ls, "beforeBaseYear")
+		} else if c.T.Sec() < firstJie(c.Base).Sec()+70*86400 {
+			ls = append(ls, "firstWeeksOfBaseYear")
+		}
+		if ref.Mod(c.Base, 60) == 1 {
+			ls = append(ls, "base=1mod60")
+		}
 		nt := false
 		in, before := jieNear(t)
 		if in {
@@ -184,7 +197,7 @@ var reverse = ev.Register(&ev.P[bzCase]{
 	Known: func(c bzCase, err error) string {
 		return knownSig(c)
 	},
-	Require: []string{"jieInSlot", "beforeJieInSlot", "ratSlot", "hour23", "jieDay", "lichunDay", "sect:1", "sect:2", "base:1600", "base:1984", "base:1500", "base:1000", "base:1582"},
+	Require: []string{"jieInSlot", "beforeJieInSlot", "ratSlot", "hour23", "jieDay", "lichunDay", "sect:1", "sect:2", "base:1600", "base:1984", "base:1500", "base:1000", "base:1582", "beforeBaseYear", "firstWeeksOfBaseYear", "base=1mod60"},
 })
 
 // knownSig: input classes of the open findings (depend on the input only).
@@ -252,10 +265,24 @@ func TestC10(t *testing.T) {
 	}
 	reverse.Rapid(ev.Share(ev.Pick(3200, 64000)), func(t *rapid.T) bzCase {
 		base := rapid.SampledFrom(bases).Draw(t, "base")
+		if rapid.IntRange(0, 2).Draw(t, "anyBase") == 0 { // any base year, on either side of the calendar switch
+			base = rapid.IntRange(900, lastYear-1).Draw(t, "baseYear")
+			if rapid.Bool().Draw(t, "cycleEdge") { // the look-up walks 60-year cycles: base years next to a multiple of 60 and next to the cycle's first year
+				base = 60*rapid.IntRange(15, (lastYear-5)/60).Draw(t, "cycle") + rapid.SampledFrom([]int{-1, 0, 1, 2, 3, 4, 5}).Draw(t, "residue")
+			}
+		}
 		sect := rapid.IntRange(1, 2).Draw(t, "sect")
 		lo := base
 		var m ref.DT
-		switch rapid.IntRange(0, 4).Draw(t, "kind") {
+		switch rapid.IntRange(0, 6).Draw(t, "kind") {
+		case 5: // the first weeks after the first Jie of the base year (the lower edge of the domain)
+			m = ref.FromSec(firstJie(base).Sec() + int64(rapid.IntRange(0, 70*24*60).Draw(t, "minutesAfterFirstJie"))*60)
+		case 6: // the weeks BEFORE the base year: out of the domain, so only soundness and the lower bound are decided
+			m = ref.FromSec((ref.DT{Y: base, M: 1, D: 1}).Sec() - int64(rapid.IntRange(1, 45*24*60).Draw(t, "minutesBeforeBaseYear"))*60)
+			if m.Y < 2 {
+				m = ref.DT{Y: base, M: 8, D: 15, H: 12}
+			}
+			return bzCase{m, sect, base}
 		case 0: // rat hour on both sides of midnight
 			m = gen.MomentIn(t, lo, lastYear)
 			m.H = rapid.SampledFrom([]int{23, 0}).Draw(t, "ratHour")
@@ -273,7 +300,7 @@ func TestC10(t *testing.T) {
 			m = gen.MomentIn(t, lo, lastYear)
 		}
 		if m.Y > lastYear || m.Sec() < firstJie(base).Sec() {
-			m = ref.DT{Y: base + 1, M: 6, D: 15, H: 12}
+			m = ref.DT{Y: base, M: 8, D: 15, H: 12}
 		}
 		return bzCase{m, sect, base}
 	})
